@@ -169,7 +169,9 @@ def parseAcc (t : Tables) (mod : String) (j : Json) : R (Acc JJ VV) := do
       | [.str cls, .str ident] => pure (some (Err.mk (clsOfName cls) ident))
       | _ => throw "bad readerror"
     return .param {
-      attr, exp, limitHead := ← optS (← fld j "limitHead"), readonly := ← fldBool j "readonly",
+      attr, exp, limitHead := ← optS (← fld j "limitHead"),
+      isLimitsPair := (match j.getObjVal? "isLimitsPair" with | .ok (.bool b) => b | _ => false),
+      readonly := ← fldBool j "readonly",
       constant := ← optS (← fld j "constant"), dt := mkDt t mod attr datainfo,
       entry := ⟨← fldStr j "value", readerror⟩, checks := ← (← fldArr j "checks").mapM parseCheck,
       hasRead := ← fldBool j "hasRead", hasWrite := ← fldBool j "hasWrite", props }
